@@ -41,7 +41,8 @@ static Json::Value genHookDef(Rng& rng, const std::string& id,
   return h;
 }
 
-static Json::Value genC07(Rng& rng) {
+Json::Value genHookKillPlanWith(Rng& rng, const KillGenOpts& o);
+Json::Value genHookKillPlan(Rng& rng) {
   KillGenOpts o;
   o.separated = true;
   o.killFailP = rng.pick({0.2, 0.6});
@@ -50,6 +51,10 @@ static Json::Value genC07(Rng& rng) {
   o.minTicks = 4;
   o.maxTicks = 10;
   o.kernelKillP = 0.1;
+  return genHookKillPlanWith(rng, o);
+}
+
+Json::Value genHookKillPlanWith(Rng& rng, const KillGenOpts& o) {
   Json::Value plan = genKillPlan(rng, o);
   std::vector<std::string> paths;
   for (const auto& c : plan["world"]["cgroups"])
@@ -70,6 +75,47 @@ static Json::Value genC07(Rng& rng) {
           rng, "hd" + std::to_string(d) + "_" + std::to_string(i), paths,
           hookTimes, interval));
     plan["dropin_hooks"].append(unit);
+  }
+  // drop-ins with hooks come, go and are replaced while the daemon runs (the
+  // priority order must follow: newest first, survivors keep their order)
+  if (rng.chance(0.5)) {
+    int nticks = plan["ticks"].asInt();
+    std::vector<std::string> tags;
+    for (int d = 0; d < nd; d++)
+      tags.push_back("tag" + std::to_string(d));
+    int nops = (int)rng.range(1, 4);
+    int t = 0;
+    for (int k = 0; k < nops; k++) {
+      t += (int)rng.range(0, 2);
+      if (t >= nticks)
+        break;
+      Json::Value op(Json::objectValue);
+      op["t"] = t;
+      bool remove = !tags.empty() && rng.chance(0.45);
+      if (remove) {
+        // the oldest ones more often than the newest
+        size_t i = rng.chance(0.6) ? 0 : rng.below(tags.size());
+        op["op"] = "remove";
+        op["tag"] = tags[i];
+        tags.erase(tags.begin() + i);
+      } else {
+        std::string tag = !tags.empty() && rng.chance(0.35)
+            ? tags[rng.below(tags.size())]
+            : "tagx" + std::to_string(k);
+        op["op"] = "add";
+        op["tag"] = tag;
+        int nh = (int)rng.range(1, 3);
+        for (int i = 0; i < nh; i++)
+          op["prekill_hooks"].append(genHookDef(
+              rng, "ho" + std::to_string(k) + "_" + std::to_string(i), paths,
+              hookTimes, interval));
+        auto it = std::find(tags.begin(), tags.end(), tag);
+        if (it != tags.end())
+          tags.erase(it);
+        tags.push_back(tag);
+      }
+      plan["dropin_hook_ops"].append(op);
+    }
   }
   plan["hooks"] = hookTimes;
   for (auto& rs : plan["config"]["rulesets"]) {
@@ -119,16 +165,42 @@ struct HookPrio {
     }
     return r;
   }
+  // order in force from a tick on (drop-ins are added, removed and replaced
+  // between ticks)
+  std::map<int, std::vector<std::pair<std::string, std::vector<std::string>>>>
+      fromTick;
   void load() {
-    const Json::Value& d = R.plan["dropin_hooks"];
-    for (int i = (int)d.size() - 1; i >= 0; i--)
-      for (const auto& h : d[i]["prekill_hooks"])
-        ordered.emplace_back(h["args"]["id"].asString(), pats(h));
-    for (const auto& h : R.plan["config"]["prekill_hooks"])
-      ordered.emplace_back(h["args"]["id"].asString(), pats(h));
+    // oldest first; a unit = (tag, hooks in file order)
+    std::vector<std::pair<std::string, Json::Value>> units;
+    for (const auto& u : R.plan["dropin_hooks"])
+      units.emplace_back(u["tag"].asString(), u["prekill_hooks"]);
+    auto build = [&]() {
+      std::vector<std::pair<std::string, std::vector<std::string>>> o;
+      for (int i = (int)units.size() - 1; i >= 0; i--)
+        for (const auto& h : units[i].second)
+          o.emplace_back(h["args"]["id"].asString(), pats(h));
+      for (const auto& h : R.plan["config"]["prekill_hooks"])
+        o.emplace_back(h["args"]["id"].asString(), pats(h));
+      return o;
+    };
+    ordered = build();
+    fromTick[-1] = ordered;
+    for (const auto& op : R.plan["dropin_hook_ops"]) {
+      std::string tag = op["tag"].asString();
+      for (size_t i = 0; i < units.size(); i++)
+        if (units[i].first == tag) {
+          units.erase(units.begin() + i);
+          break;
+        }
+      if (op["op"].asString() == "add")
+        units.emplace_back(tag, op["prekill_hooks"]);
+      fromTick[op["t"].asInt()] = build();
+    }
   }
-  std::string first(const std::string& rel) const {
-    for (auto& h : ordered)
+  std::string first(const std::string& rel, int tick) const {
+    auto it = fromTick.upper_bound(tick);
+    const auto& ord = it == fromTick.begin() ? ordered : std::prev(it)->second;
+    for (auto& h : ord)
       for (auto& p : h.second)
         if (hookPatternMatch(p, rel))
           return h.first;
@@ -136,7 +208,7 @@ struct HookPrio {
   }
 };
 
-static void runC07() {
+KillRun runHookKillPlan() {
   g_beforeRun = [&]() {
     // drop-in hooks through the real compileDropIn + Engine::addDropInConfig
     Oomd::Config2::JsonConfigParser parser;
@@ -151,8 +223,36 @@ static void runC07() {
         g_engine->addDropInConfig(unit["tag"].asString(), std::move(*du));
     }
   };
+  g_killPlanOnTick = [&]() {
+    // the adaptor's protocol: a replaced tag is removed, then added
+    Oomd::Config2::JsonConfigParser parser;
+    Oomd::PluginConstructionContext cctx(R.cgfs);
+    for (const auto& op : R.plan["dropin_hook_ops"]) {
+      if (op["t"].asInt() != R.tick)
+        continue;
+      std::string tag = op["tag"].asString();
+      record("dropin-hooks", tag, op["op"].asString());
+      g_engine->removeDropInConfig(tag);
+      if (op["op"].asString() == "add") {
+        Json::Value cfg(Json::objectValue);
+        cfg["prekill_hooks"] = op["prekill_hooks"];
+        Json::StreamWriterBuilder wb;
+        auto dir = parser.parse(Json::writeString(wb, cfg));
+        auto du = Oomd::Config2::compileDropIn(*g_ir, *dir, cctx);
+        if (du)
+          g_engine->addDropInConfig(tag, std::move(*du));
+      }
+      probe("dropin-hook-op");
+    }
+  };
   KillRun kr = runKillPlan();
   g_beforeRun = nullptr;
+  g_killPlanOnTick = nullptr;
+  return kr;
+}
+
+static void runC07() {
+  KillRun kr = runHookKillPlan();
   if (!kr.dr.ran) {
     if (R.violations.empty())
       violate("C07.valid-config-rejected",
@@ -177,6 +277,7 @@ static void runC07() {
     int64_t deadline = 0;
     bool hasDeadline = false;
     bool consumed = false;
+    size_t destroyEv = 0;
   };
   std::map<int, Fire> fires;
   std::map<std::string, int> liveByWid; // wid -> live fire n (or absent)
@@ -264,7 +365,7 @@ static void runC07() {
                     " ns after the prekill_hook_timeout window closed");
         return;
       }
-      std::string want = prio.first(f.rel);
+      std::string want = prio.first(f.rel, e.tick);
       if (want != f.hook) {
         violate("C07.hook-priority",
                 "hook '" + f.hook + "' fired for /" + f.rel +
@@ -282,6 +383,7 @@ static void runC07() {
       auto it = fires.find((int)e.n1);
       if (it != fires.end()) {
         it->second.destroyed = true;
+        it->second.destroyEv = k;
         auto lw = liveByWid.find(it->second.wid);
         if (lw != liveByWid.end() && lw->second == it->second.n)
           liveByWid.erase(lw);
@@ -301,11 +403,14 @@ static void runC07() {
     Fire* mine = nullptr;
     for (auto& kv : fires)
       if (kv.second.wid == inv.wid && !kv.second.consumed &&
-          kv.second.rel == a.rel)
+          kv.second.rel == a.rel &&
+          // an invocation destroyed during an earlier run of the action
+          // (its victim was gone or re-created: no kill) is history
+          (!kv.second.destroyed || kv.second.destroyEv >= inv.begin))
         mine = &kv.second;
     // unconsumed fires for *other* victims of this action that are still
     // alive mean the action moved on without finishing them
-    std::string want = prio.first(a.rel);
+    std::string want = prio.first(a.rel, e.tick);
     if (mine) {
       mine->consumed = true;
       if (!mine->destroyed) {
@@ -369,6 +474,6 @@ static void runC07() {
   R.nontrivial = nFires > 0 && attempts > 0;
 }
 
-static PropReg reg({"C07", genC07, runC07});
+static PropReg reg({"C07", genHookKillPlan, runC07});
 
 } // namespace sim
